@@ -44,7 +44,8 @@ def block_comment(rng, multiline):
     eq = b'=' * lvl
     body = comment_text(rng)
     if multiline:
-        body = body[:len(body) // 2] + b'\n' + body[len(body) // 2:]
+        # (the second line may look like a comment, a directive or a section header of its own: it is text of this comment)
+        body = body[:len(body) // 2] + b'\n' + rng.choice((b'', b'', b'', b'-- ', b'  -- ', b'// ', b'--[[ ', b'#include ')) + body[len(body) // 2:]
     close = b']' + eq + b']'
     body = body.replace(b']', b')')
     if rng.random() < 0.2:
@@ -61,6 +62,9 @@ def block_comment(rng, multiline):
 def line_comment(rng):
     marker = rng.choice((b'--', b'--', b'//'))
     text = comment_text(rng)
+    if marker == b'--' and rng.random() < 0.08:
+        # a long-bracket opener that does not directly follow the dashes opens nothing: this is a line comment
+        text = rng.choice((b' [[', b' [=[', b'  [[ x', b'\t[[', b' [==[ y ]==]')) + text
     if marker == b'//' and rng.random() < 0.2:
         # after `//` a long-bracket opener is plain comment text (it would open a block comment after `--`)
         text = rng.choice((b'[[', b'[=[', b'[[ x ]]', b'[==[')) + text.lstrip(b' ')
